@@ -159,6 +159,8 @@ def gen_model(rng, n_ops=None, sinks=True, cmds=None, table=None, metadata=False
             args["DataType"] = "Float"
         if libs != "csv" and all(v >= 0 for v in table["cols"][col]["data"]) and rng.random() < 0.7:
             args["DataType"] = "Positive Integer" if table["cols"][col]["integer"] else "Positive Float"
+        if libs == "csv" and rng.random() < 0.2:
+            args["ReturnType"] = rng.choice(["Float", "Integer"])      # a declared (unused) parameter of the CSV reader
         rname = "In_X%d" % i
         commands.append({"result": rname, "cmd": "EEMSRead", "args": args})
         pool["nonfuzzy"].append(rname)
